@@ -74,7 +74,17 @@ def modules():
 
 
 def _signal(ch, rng, n, h):
-    kind = ch.draw(4, "sigkind")
+    kind = ch.weighted([3, 3, 3, 3, 2], "sigkind")
+    if kind == 4:
+        # a pulse after (and before) stretches of exact zeros: a recorded event with quiet
+        # lead-in / lead-out - what "skip the zero rows" shortcuts look at
+        x = rng.standard_normal((n, h))
+        lead = ch.draw(max(1, min(n, 8)), "lead_zeros")
+        tail = ch.draw(max(1, min(n, 5)), "tail_zeros")
+        x[:lead] = 0.0
+        if tail:
+            x[n - tail:] = 0.0
+        return x, "zero_padded_pulse"
     if kind == 0:
         x = rng.standard_normal((n, h))
     elif kind == 1:
@@ -142,6 +152,10 @@ def gen_case(ch):
             freq[ch.draw(lf, "frep_to")] = freq[ch.draw(lf, "frep_from")]
         if ch.flip(1, 3, "fsorted"):
             freq = np.sort(freq)
+        if lf > 2 and ch.flip(1, 10, "frun"):
+            # a run of 2-4 equal consecutive values (band edges, stacked sweeps)
+            a0 = ch.draw(lf - 1, "frun_at")
+            freq[a0 : a0 + 2 + ch.draw(3, "frun_len")] = freq[a0]
         ffmt = ch.weighted([4, 1, 1], "freqfmt")  # ndarray, list, scalar
         # the frequency vector is "1d array_like": any real dtype
         fdt = ["float64", "float32", "int64", "float16"][ch.weighted([12, 2, 1, 1], "freq_dtype")]
@@ -221,6 +235,9 @@ def gen_case(ch):
         freq = np.sort(freq)
     if lf > 1 and ch.flip(1, 8, "frep"):
         freq[ch.draw(lf, "frep_to")] = freq[ch.draw(lf, "frep_from")]
+    if lf > 2 and ch.flip(1, 8, "frun"):
+        a0 = ch.draw(lf - 1, "frun_at")
+        freq[a0 : a0 + 2 + ch.draw(3, "frun_len")] = freq[a0]
     # (no float16 here: fdepsd puts the frequencies in a pandas index, which refuses float16)
     fdt = ["float64", "float32", "int64", "float32"][ch.weighted([12, 2, 1, 1], "freq_dtype")]
     if fdt == "int64":
